@@ -12,3 +12,75 @@ def eval_expression_model(expression, resolver):
     if not expression.ghost_defined:
         raise SymbolNotDefined("ghost_symbol")
     return expression.ghost_value
+
+
+# ------------------------------------------------------------------------------------------------ drivers (C14, C12)
+import struct
+
+from a816.parse.nodes import NodeError
+from vf.contracts.rt import ghost, ghost_get, make_file
+
+
+def assemble_string_model(self, input_program, filename, emitter):
+    """Assumed contract of Program.assemble_string_with_emitter towards its callers: it either returns None (every
+    statement assembled and written), returns an error message (scan / parse error), or raises (NodeError, RuntimeError,
+    or any other exception of the pipeline).  Which one is chosen by the ghost value 'callee_outcome'."""
+    ghost("callee_args", (input_program, filename, emitter))
+    o = ghost_get("callee_outcome")
+    if o == 0:
+        return None
+    if o == 1:
+        return "t.s:0:0 : Invalid Input"
+    if o == 2:
+        raise NodeError("undefined is not defined in the current scope.", None)
+    if o == 3:
+        raise RuntimeError("no physical address")
+    if o == 4:
+        raise KeyError("x")
+    if o == 5:
+        raise struct.error("out of range")
+    raise ValueError("other")
+
+
+def assemble_with_emitter_model(self, asm_file, emitter):
+    """Assumed contract of Program.assemble_with_emitter towards assemble / assemble_as_patch: returns a status (ghost
+    'status') or raises OSError when the source file is missing."""
+    ghost("emitter_seen", emitter)
+    ghost("asm_file_seen", asm_file)
+    o = ghost_get("callee_outcome")
+    if o == 7:
+        raise FileNotFoundError(asm_file)
+    return ghost_get("status")
+
+
+def open_model(path, mode="r", encoding=None):
+    """open(): files of the ghost file system 'fs' (dict path -> content); a missing file raises FileNotFoundError;
+    opening for writing registers the new file object under 'opened'."""
+    fs = ghost_get("fs")
+    if "w" in mode:
+        f = make_file(b"", mode)
+        ghost("opened:" + str(path), f)
+        return f
+    if path not in fs:
+        raise FileNotFoundError(path)
+    return make_file(fs[path], mode)
+
+
+def parser_parse_model(self, program, filename=""):
+    t = ghost_get("trace")
+    t.append("parse")
+    return ghost_get("parse_error"), ["nodes"]
+
+
+def resolve_labels_model(self, program_nodes):
+    t = ghost_get("trace")
+    t.append("resolve")
+    if ghost_get("resolve_outcome") != 0:
+        raise RuntimeError("resolve failed")
+
+
+def emit_model(self, program, writer):
+    t = ghost_get("trace")
+    t.append("emit")
+    if ghost_get("emit_outcome") != 0:
+        raise RuntimeError("emit failed")
